@@ -19,7 +19,7 @@ from vlib import harness
 ID = "C20"
 LEVEL = "exploration"
 RULE = ("a case is one tracker process + 1-3 client processes and a seeded script of 10-40 requests REGISTER / MAYBE_UNLINK / "
-        "UNREGISTER over <= 4 files and <= 2 folders (folders containing tracked files), salted with malformed lines (garbage, "
+        "UNREGISTER over <= 4 files and <= 2 folders (folders containing tracked files and nested tracked folders), resources removed by their owner while still registered, directories registered as files, salted with malformed lines (garbage, "
         "non-ASCII, unknown type, unknown command, decrement / unregister of unknown names), clients exiting normally or "
         "SIGKILLed at seeded positions, then end of input; the disk is compared with a ref-count model after every "
         "synchronised request and after the tracker exited; distinct_nontrivial counts distinct scripts with at least "
@@ -90,12 +90,18 @@ def run_case(case, ctx):
         files = [os.path.join(d, f"res{i}.bin") for i in range(rng.randint(1, 4))]
         folders = [os.path.join(d, f"dir{i}") for i in range(rng.randint(0, 2))]
         inside = {}
-        for fo in folders:
+        for fo in list(folders):
             os.makedirs(fo)
             for j in range(rng.randint(0, 2)):
                 p = os.path.join(fo, f"in{j}.bin")
                 inside[p] = fo
-        tracked_files = files + list(inside)
+            if rng.random() < 0.4:
+                # a tracked folder nested in a tracked folder
+                sub = os.path.join(fo, "sub")
+                os.makedirs(sub)
+                folders.append(sub)
+                inside[sub] = fo
+        tracked_files = files + [p for p in inside if p not in folders]
         decoys = [os.path.join(d, "decoy.bin")] + [os.path.join(fo, "decoy.bin") for fo in folders]
         for p in tracked_files + decoys:
             open(p, "w").close()
@@ -122,11 +128,13 @@ def run_case(case, ctx):
             return None
 
         def expect_exists(p):
-            rt = "folder" if p in folders else "file"
             if p in gone:
                 return False
-            if p in inside and inside[p] in gone:
-                return False
+            q = p
+            while q in inside:          # a path disappears with any enclosing folder that is gone
+                q = inside[q]
+                if q in gone:
+                    return False
             return True
 
         gone = set()
@@ -168,7 +176,28 @@ def run_case(case, ctx):
                 ack = cl.send(op="RAW", hex=raw.hex())
                 script.append((ci, "MALFORMED", kind))
                 stats["malformed"] += 1
-            elif k < 0.2 and len(live) > 0 and rng.random() < 0.6:
+            elif k < 0.17 and [p for p in tracked_files + folders if expect_exists(p) and count["folder" if p in folders else "file"].get(p)]:
+                # the owner removes a still registered resource itself: the tracker's later clean-up of it will fail,
+                # which must not keep it from cleaning up anything else
+                cands = [p for p in tracked_files + folders if expect_exists(p) and count["folder" if p in folders else "file"].get(p)]
+                p = rng.choice(cands)
+                if p in folders:
+                    shutil.rmtree(p)
+                else:
+                    os.unlink(p)
+                gone.add(p)
+                script.append(("driver", "EXTERNAL_RM", os.path.basename(p)))
+                ctx.count("externally_removed_while_registered")
+            elif k < 0.21:
+                # wrong resource type: a directory registered as a 'file' (its clean-up can only fail)
+                wt = os.path.join(d, f"wrongtype{step}")
+                os.makedirs(wt)
+                ack = cl.send(op="REGISTER", name=wt, rtype="file")
+                if rng.random() < 0.4:
+                    cl.send(op="MAYBE_UNLINK", name=wt, rtype="file")
+                script.append((ci, "REGISTER_DIR_AS_FILE", os.path.basename(wt)))
+                stats["malformed"] += 1
+            elif k < 0.28 and len(live) > 0 and rng.random() < 0.6:
                 if rng.random() < 0.5:
                     cl.kill()
                     script.append((ci, "KILLED"))
